@@ -10,6 +10,7 @@ import (
 
 	"verif/internal/ev"
 	"verif/internal/execcheck"
+	"verif/internal/wref"
 	"verif/internal/xrun"
 )
 
@@ -25,10 +26,22 @@ var cfg = &execcheck.Config{
 	Check:  "msl-exec",
 	Prefix: "msl.",
 	Run:    xrun.RunMSL,
+	Discards: func(e *wref.Events, off func(string) bool) string {
+		if e.DotIntOverflow > 0 && off("dot.int.overflow") {
+			return "known:dot-int-overflow" // finding C04-4
+		}
+		return ""
+	},
 	DrawOpts: func(t *rapid.T) map[string]string {
 		pick := func(l string, v []string) string { return v[rapid.IntRange(0, len(v)-1).Draw(t, l)] }
-		return map[string]string{"msl": pick("msl", mslVersions), "bind": pick("bind", binds), "idx": pick("idx", policies),
-			"buf": pick("buf", policies), "zeroinit": "1", "loopbound": strconv.Itoa(rapid.IntRange(0, 1).Draw(t, "loopbound"))}
+		idxPolicies := policies
+		if ev.Excluded("msl.rzsw.value-index") {
+			// finding C04-3: ReadZeroSkipWrite reads that are emitted inline (by-value composites under the
+			// index policy, buffer reads inside `break if` / loop conditions under the buffer policy) lack parentheses
+			idxPolicies = policies[:2]
+		}
+		return map[string]string{"msl": pick("msl", mslVersions), "bind": pick("bind", binds), "idx": pick("idx", idxPolicies),
+			"buf": pick("buf", idxPolicies), "zeroinit": "1", "loopbound": strconv.Itoa(rapid.IntRange(0, 1).Draw(t, "loopbound"))}
 	},
 }
 
